@@ -352,3 +352,267 @@ def replay_trackers(model, init, steps, m, p, k, which):
         if bad:
             return True, {"case": case, "native": nat, "spec": spec, "which": which, "reproduced_in": sorted(set(bad))}
     return False, {"tried": tried[:2], "which": which}
+
+
+# ------------------------------------------------------------------------------------------------
+# C12: ESS with Geyer's initial monotone sequence
+# ------------------------------------------------------------------------------------------------
+def spec_autocov(xs):
+    n = len(xs)
+    mu = mean(xs)
+    c = [x - mu for x in xs]
+    out = []
+    for lag in range(n):
+        s = None
+        for t in range(n - lag):
+            term = c[t] * c[t + lag]
+            s = term if s is None else s + term
+        out.append(s / n)
+    return out
+
+
+def c12_ess(out, tier, seed):
+    eng = mir_load.load_engine()
+    configs = [(2, 4, 1), (2, 5, 1)]
+    if tier == "thorough":
+        configs += [(2, 6, 1), (3, 4, 2), (2, 8, 1), (1, 5, 1)]
+    u = MUnit(out, "C12", "c12_ess", eng,
+              functions=["stats::ess (+ closures)", "stats::autocov (algorithm switch)", "stats::autocov_bf (+ closure)"],
+              bounds=["(half-chains, draws per half-chain, params) in %s; every entry an arbitrary real; W, var+ arbitrary "
+                      "positive reals per parameter; the Geyer loop is explored over every sign pattern of the pair sums" % (configs,)],
+              assumptions=R_ASSUME + ["var+ > 0"],
+              out_of_scope=["the FFT autocovariance path (rustfft planner / SIMD kernels are not encodable): 'identical whichever "
+                            "path' is decided only up to the selection rule n <= 100", "asymptotic statements (i.i.d., AR(1))",
+                            "affine / permutation / time-reversal invariance (lemmas about the specification formula)"])
+    for (m, n, p) in configs:
+        def run(ctx, m=m, n=n, p=p):
+            xs = [ctx.fresh_real("x") for _ in range(m * n * p)]
+            w = [ctx.fresh_real("W") for _ in range(p)]
+            v = [ctx.fresh_real("V") for _ in range(p)]
+            for a in v:
+                ctx.assume(a.z() > 0)
+            sample = ND(obj_array(xs, (m, n, p)))
+            r = eng.call_fn("ess", [sample, ND(obj_array(list(w), (p,))), ND(obj_array(list(v), (p,)))])
+            return xs, w, v, r
+        for ctx, res in eng.explore(run, max_paths=3000):
+            u.paths += 1
+            if isinstance(res, Exception):
+                out.inconclusive.append("c12_ess %s: %r" % ((m, n, p), res))
+                continue
+            xs, w, v, r = res
+            arr = np.array(xs, dtype=object).reshape(m, n, p)
+            inst = "half-chains=%d draws=%d params=%d" % (m, n, p)
+            for d in range(p):
+                acov = [spec_autocov([arr[c, t, d] for t in range(n)]) for c in range(m)]
+                rho = []
+                for t in range(n):
+                    avg = mean([acov[c][t] for c in range(m)])
+                    rho.append(Num(1) - (w[d] - avg) / v[d])
+                # Geyer's initial positive, monotone sequence over pairs (0,1), (2,3), ...
+                tau_terms = Num(0)
+                prev = (rho[0] + rho[1]) if n >= 2 else Num(0)
+                alive = True  # symbolic "still summing"
+                total = Num(0)
+                for k in range(0, n - 1, 2):
+                    pt = rho[k] + rho[k + 1]
+                    pos = pt.gt(0)
+                    alive = mirsym.b_and(alive, pos)
+                    capped = mirsym.ite(pt.gt(prev), prev, pt)
+                    total = mirsym.ite(alive, total + capped, total)
+                    prev = mirsym.ite(alive, capped, prev)
+                tau = Num(-1) + total * 2
+                want = Num(m * n) / tau
+                u.equal(ctx, "ESS = (half-chains x length) / tau with tau = -1 + 2 * sum of Geyer's positive, monotone pair sums of "
+                        "rho_t = 1 - (W - mean autocovariance_t)/var+", r.a[d], want, replay_ess_factory(m, n, p, d, xs), inst,
+                        [tau.z() != 0])
+    # algorithm selection rule
+    marks = []
+    eng.override(r"^autocov_bf$", lambda e, c, a: (marks.append("bf"), ND(obj_array([Num(0)], (1, 1))))[1])
+    eng.override(r"^autocov_fft$", lambda e, c, a: (marks.append("fft"), ND(obj_array([Num(0)], (1, 1))))[1])
+    for rows, want in ((1, "bf"), (100, "bf"), (101, "fft"), (4096, "fft")):
+        def run2(ctx, rows=rows):
+            del marks[:]
+            eng.call_fn("autocov", [ND(np.zeros((rows, 1), dtype=object))])
+            return list(marks)
+        for ctx, res in eng.explore(run2):
+            u.paths += 1
+            u.holds(ctx, "brute-force autocovariance is selected iff a half-chain has at most 100 draws", res == [want], None, "rows=%d" % rows)
+    u.done()
+
+
+# ------------------------------------------------------------------------------------------------
+# C11: the summary's comparator must be a total preorder (std's sort may panic otherwise)
+# ------------------------------------------------------------------------------------------------
+def c11_comparator(out, tier, seed):
+    eng = mir_load.load_engine()
+    u = MUnit(out, "C11", "c11_comparator", eng, functions=["stats::basic_stats::{closure#0} (the sort_by comparator)"],
+              bounds=["three arbitrary f32 values, each possibly NaN (N-mode)"],
+              assumptions=["N-mode: reals plus a NaN flag with IEEE comparison semantics; partial_cmp is None iff an operand is NaN",
+                           "std's sort_by may panic ('user-provided comparison function does not correctly implement a total order') "
+                           "or misorder when the comparator is not a strict weak order; for <= 20 elements it uses insertion sort "
+                           "and does not detect it"],
+              out_of_scope=["-0.0 vs +0.0 and infinities (not represented in N-mode)"])
+    fn = None
+    for name in eng.dump.names():
+        if name.startswith("basic_stats::{closure#"):
+            fn = name
+            break
+    if fn is None:
+        u.holds(None, "comparator closure present", False)
+        u.done()
+        return
+
+    def cmp_code(ctx, a, b):
+        clo = mirsym.Closure("cmp", [], [])
+        r = eng.call_fn(fn, [Ref.to(clo), Ref.to(a), Ref.to(b)])
+        return {"Less": -1, "Equal": 0, "Greater": 1}[r.variant]
+
+    def run(ctx):
+        vals = []
+        for i in range(3):
+            vals.append(Num(z3.Real("v%d" % i), z3.Bool("v%d_nan" % i)))
+        a, b, c = vals
+        return vals, cmp_code(ctx, a, b), cmp_code(ctx, b, c), cmp_code(ctx, a, c), cmp_code(ctx, b, a), cmp_code(ctx, a, a)
+    n = 0
+    for ctx, res in eng.explore(run, max_paths=5000):
+        u.paths += 1
+        n += 1
+        if isinstance(res, Exception):
+            out.inconclusive.append("c11_comparator: %r" % (res,))
+            continue
+        vals, ab, bc, ac, ba, aa = res
+
+        def replay(model):
+            return replay_comparator()
+        u.holds(ctx, "summary comparator is reflexive: cmp(a,a) = Equal", aa == 0, replay)
+        u.holds(ctx, "summary comparator is antisymmetric: cmp(a,b) = -cmp(b,a)", ab == -ba, replay)
+        trans = not (ab <= 0 and bc <= 0 and ac > 0) and not (ab >= 0 and bc >= 0 and ac < 0)
+        u.holds(ctx, "summary comparator is transitive, including transitivity of 'Equal' (a total preorder even with NaN)",
+                trans and not (ab == 0 and bc == 0 and ac != 0), replay)
+    u.reached("comparator outcome combinations", n)
+    u.done()
+
+
+def replay_comparator():
+    """> 20 elements with NaNs interleaved: std's sort takes the path that detects an inconsistent order."""
+    import random
+    rnd = random.Random(5)
+    tried = []
+    for k in range(12):
+        nvals = rnd.choice([21, 33, 64, 100])
+        data = []
+        for i in range(nvals):
+            data.append("NaN" if rnd.random() < 0.3 else round(rnd.uniform(-5, 5), 3))
+        case = {"case": "basic_stats", "data": data}  # "NaN" strings are read as NaN by mreplay
+        nat = native(case)
+        bad = []
+        for prof, r in nat.items():
+            if isinstance(r, dict) and r.get("panic"):
+                bad.append(prof)
+            elif isinstance(r, dict) and "min" in r:
+                fin = [x for x in data if x != "NaN"]
+                mn, mx = r["min"], r["max"]
+                # a misordered result: reported extremes that are neither NaN nor the true extremes
+                if isinstance(mn, float) and isinstance(mx, float) and (mn != min(fin) or mx != max(fin)):
+                    bad.append(prof)
+        tried.append({"n": nvals, "native": {p: (r if not isinstance(r, dict) else {k2: r[k2] for k2 in list(r)[:6]}) for p, r in nat.items()}})
+        if bad:
+            return True, {"case": {"case": "basic_stats", "data": data}, "native": nat, "reproduced_in": bad,
+                          "what": "sort with the non-transitive comparator panics or misorders the finite values"}
+    return False, {"tried": tried[:3]}
+
+
+# ------------------------------------------------------------------------------------------------
+# C16 (normalisation in `new`, which Kani's float division cannot decide)
+# ------------------------------------------------------------------------------------------------
+def c16_new(out, tier, seed):
+    eng = mir_load.load_engine()
+    lens = [1, 2, 3, 4] if tier == "quick" else [1, 2, 3, 4, 6, 8]
+    u = MUnit(out, "C16", "c16_new", eng, functions=["Categorical::<T>::new (+ closures)"],
+              bounds=["len in %s; weights arbitrary non-negative reals with positive sum" % lens],
+              assumptions=R_ASSUME[:1] + ["SmallRng::from_os_rng is opaque"],
+              out_of_scope=["f32/f64 rounding of the normalised probabilities (their sum is 1 up to len*ulp)"])
+    new = eng.find_fn("Categorical::new")
+    for n in lens:
+        def run(ctx, n=n):
+            w = [ctx.fresh_real("w") for _ in range(n)]
+            for x in w:
+                ctx.assume(x.z() >= 0)
+            s = w[0]
+            for x in w[1:]:
+                s = s + x
+            ctx.assume(s.z() > 0)
+            c = eng.call_fn(new, [RVec(list(w))])
+            return w, s, c
+        for ctx, res in eng.explore(run):
+            u.paths += 1
+            if isinstance(res, Exception):
+                out.inconclusive.append("c16_new len=%d: %r" % (n, res))
+                continue
+            w, s, c = res
+            probs = c.get("probs")
+            ok = isinstance(probs, RVec) and len(probs.items) == n
+            u.holds(ctx, "new stores one probability per weight", ok, None, "len=%d" % n)
+            if not ok:
+                continue
+            tot = None
+            for i in range(n):
+                u.equal(ctx, "stored probability equals weight / sum of weights", probs.items[i], w[i] / s, None, "len=%d" % n)
+                tot = probs.items[i] if tot is None else tot + probs.items[i]
+            u.equal(ctx, "stored probabilities sum to one", tot, Num(1), None, "len=%d" % n)
+    u.done()
+
+
+
+def float_ess(data, m, n, p, d):
+    """float evaluation of the same specification, from the raw (already split) half-chains"""
+    chains = [[data[(c * n + t) * p + d] for t in range(n)] for c in range(m)]
+    w, vp = spec_rhat_from_chains(chains, True)
+    acov = [spec_autocov(c) for c in chains]
+    rho = [1 - (w - sum(acov[c][t] for c in range(m)) / m) / vp for t in range(n)]
+    total, prev = 0.0, (rho[0] + rho[1]) if n >= 2 else 0.0
+    for k in range(0, n - 1, 2):
+        pt = rho[k] + rho[k + 1]
+        if pt <= 0:
+            break
+        pt = min(pt, prev)
+        prev = pt
+        total += pt
+    tau = -1 + 2 * total
+    return m * n / tau if tau != 0 else float("inf")
+
+
+def replay_ess_factory(m, n, p, d, xs):
+    def replay(model):
+        # native: split_rhat_mean_ess on an array whose half-chains are exactly the explored ones (m/2 chains of 2n draws)
+        import random
+        rnd = random.Random(13)
+        if m % 2:
+            return False, {"note": "odd number of half-chains cannot be produced through the public API"}
+        tried = []
+        for k in range(6):
+            halves = [[round(rnd.gauss(0, 1) + (0.8 * j if k % 2 else 0), 3) for _ in range(n * p)] for j in range(m)]
+            # public API takes (m/2 chains, 2n draws): chain c = first half c, second half c + m/2
+            c0 = m // 2
+            data = []
+            for c in range(c0):
+                data += halves[c] + halves[c + c0]
+            data = [float(np.float32(v)) for v in data]
+            case = {"case": "split_rhat_ess", "shape": [c0, 2 * n, p], "data": data}
+            nat = native(case)
+            flat = []
+            for c in range(m):
+                flat += [float(np.float32(v)) for v in halves[c]]
+            want = float_ess(flat, m, n, p, d)
+            bad = []
+            for prof, res in nat.items():
+                got = res.get("ess", [None] * p)[d] if isinstance(res, dict) else None
+                if isinstance(got, str):
+                    got = float(got.replace("NaN", "nan"))
+                if got is not None and got == got and abs(want) != float("inf") and not approx_eq(got, want, 5e-3, 1e-2):
+                    bad.append(prof)
+            tried.append({"case": case, "native": nat, "spec_ess": want})
+            if bad:
+                return True, {"case": case, "native": nat, "spec_ess": want, "reproduced_in": bad}
+        return False, {"tried": tried[:2]}
+    return replay
